@@ -393,8 +393,8 @@ func (c e2eCfg) toml() string {
 	}
 	motion := ""
 	if c.motionDefaults == 0 {
-		motion = fmt.Sprintf("[thermal-motion]\ndynamic-threshold = %s\ntemp-thresh-min = %d\ntemp-thresh-max = %d\ntemp-thresh = %d\ndelta-thresh = %d\ncount-thresh = %d\nframe-compare-gap = %d\nuse-one-diff-only = %s\ntrigger-frames = %d\nwarmer-only = %s\nedge-pixels = %d\n",
-			b2s(c.dyn), c.tmin, c.tmax, c.thresh, c.delta, c.count, c.gap, b2s(c.one), c.trig, b2s(c.warmer), c.edge)
+		motion = fmt.Sprintf("[thermal-motion]\ndynamic-threshold = %s\ntemp-thresh-min = %d\ntemp-thresh-max = %d\ntemp-thresh = %d\ndelta-thresh = %d\ncount-thresh = %d\nframe-compare-gap = %d\nuse-one-diff-only = %s\ntrigger-frames = %d\nwarmer-only = %s\nedge-pixels = %d\nverbose = %s\n",
+			b2s(c.dyn), c.tmin, c.tmax, c.thresh, c.delta, c.count, c.gap, b2s(c.one), c.trig, b2s(c.warmer), c.edge, b2s(c.devID%2))
 	}
 	return fmt.Sprintf(`[device]
 id = %d
@@ -416,9 +416,9 @@ min-refill = "100h"
 }
 
 func (c e2eCfg) caseLine(id int) string {
-	return fmt.Sprintf("case %d e2e min=%d max=%d preview=%d const=%d disk=%d window=%d windowset=%d dyn=%d tmin=%d tmax=%d thresh=%d delta=%d count=%d gap=%d one=%d trig=%d warmer=%d edge=%d throttle=%d bucketsecs=%d motiondefaults=%d devid=%d devname=%s lat=%d lon=%d alt=%d acc=%d toml=%s",
+	return fmt.Sprintf("case %d e2e min=%d max=%d preview=%d const=%d disk=%d window=%d windowset=%d dyn=%d tmin=%d tmax=%d thresh=%d delta=%d count=%d gap=%d one=%d trig=%d warmer=%d edge=%d throttle=%d bucketsecs=%d motiondefaults=%d verbose=%d devid=%d devname=%s lat=%d lon=%d alt=%d acc=%d toml=%s",
 		id, c.min, c.max, c.preview, c.constOn, c.diskOk, c.window, c.windowSet, c.dyn, c.tmin, c.tmax, c.thresh, c.delta, c.count, c.gap,
-		c.one, c.trig, c.warmer, c.edge, c.throttle, c.bucketSecs, c.motionDefaults, c.devID, hex.EncodeToString([]byte(c.devName)),
+		c.one, c.trig, c.warmer, c.edge, c.throttle, c.bucketSecs, c.motionDefaults, c.devID%2, c.devID, hex.EncodeToString([]byte(c.devName)),
 		f32bits(c.lat), f32bits(c.lon), f32bits(c.alt), f32bits(c.acc), hex.EncodeToString([]byte(c.toml())))
 }
 
